@@ -19,8 +19,8 @@ STUBS = ["operation codes are symbolic integers concretised by forking (every hi
          "numeric arguments are fixed valid values so that refusals are caused by the mode alone",
          "Waveform.modulation_buffers replaced by the constant (rise_time//2, rise_time//2): only timing values depend on it"]
 FLOAT_MODE = "no symbolic floats"
-BOUNDS = {"quick": dict(history_length=3, devices=["virt (physical-like, EOM, DMM, SLM)", "MockDevice (reusable, XY)"], alphabet=28),
-          "thorough": dict(history_length=4, devices=["virt", "MockDevice", "DigitalAnalogDevice"], alphabet=28)}
+BOUNDS = {"quick": dict(history_length=3, devices=["virt (physical-like, EOM, DMM, SLM)", "MockDevice (reusable, XY)"], alphabet=29),
+          "thorough": dict(history_length=4, devices=["virt", "MockDevice", "DigitalAnalogDevice"], alphabet=29)}
 OUTSIDE = ["numeric refusals", "delay/enable_eom on a local channel without target (unspecified)",
            "SLM/DMM interplay beyond the asserted cases (unspecified)", "parametrized-mode acceptance other than inspection/measure/EOM gating/name reuse"]
 
@@ -42,7 +42,7 @@ DEV = {
 
 OPS = ["D_g", "D_g2", "D_gname", "D_l", "D_mw", "DMAP", "SLM", "ADD_g", "ADD_l", "ADD_mw", "TGT_l", "DLY_g",
        "EOM_on", "EOM_p", "EOM_off", "MEAS", "MEAS_xy", "VAR", "INSPECT", "ALIGN", "SHIFT", "ADD_g2", "DMAP2", "D_l2", "VAR_EOM",
-       "EOM_on2", "EOM_off2", "D_l_init"]
+       "EOM_on2", "EOM_off2", "D_l_init", "INSPECT_EST"]
 
 
 class Model:
@@ -181,13 +181,21 @@ class Model:
             return bool(self.names["g"]["eom"])
         if op == "INSPECT":
             return not self.param
+        if op == "INSPECT_EST":  # estimate_added_delay of a concrete pulse: an inspection call like any other
+            if self.param:
+                return False
+            if "g" not in self.names:
+                return False
+            if not self.names["g"]["target"] or self.names["g"]["eom"] or self.measured:
+                return None
+            return True
         if op == "ALIGN":
             if self.measured:
                 return False
             if "g" not in self.names or "l" not in self.names:
                 return False
-            if not self.names["l"]["target"]:
-                return None
+            if not self.names["l"]["target"] or not self.names["g"]["target"]:
+                return None  # (the name "g" may have been given to a local channel that has no target yet)
             return True
         if op == "SHIFT":
             if "ground-rydberg" not in self.bases:
@@ -315,6 +323,8 @@ def do_op(seq, op, dev, st):
         seq.add_eom_pulse("g", st["v"], 0.0)
     elif op == "INSPECT":
         seq.get_duration()
+    elif op == "INSPECT_EST":
+        seq.estimate_added_delay(p16, "g")
     elif op == "ALIGN":
         seq.align("g", "l")
     elif op == "SHIFT":
